@@ -13,7 +13,9 @@ META = {
             "comparator is a total preorder consistent with PartialEq; TLC-chosen cases, every depth<=1 filter (with Self) and random "
             "deeper/wider filters with random index keys and tied slopes go through the REAL Filter::resolve and the REAL per-entry "
             "test; TLC judges the real verdicts with Match on the original filter and compares the real rewritten structure with L2.",
-    "note": "exhaustive within 5 (quick) / 6 leaves at depth 2 and 12 leaves at depth 1, 4 / 32 layouts; deeper and wider sampled; "
+    "note": "exhaustive within 5 (quick) / 6 leaves at depth 2, the 4-leaf substring family (contains / starts-with / ends-with sharing "
+            "attribute and value) at depth 2, and 12 leaves at depth 1, 4 / 32 layouts; deeper and wider sampled; starts-with / "
+            "ends-with terms reach the real resolver through the SCIM translation (FC has no constructor for them); "
             "sort_unstable is modelled as the insertion sort it is for short slices (a different permutation of Equal terms would show "
             "as L2 drift, not as an alarm). Trusted: TLC, the in-lib accessor that builds IdxMeta with chosen slopes.",
     "design_ref": "DESIGN.md section 6, C02",
@@ -28,6 +30,12 @@ def run(tier, replay):
     lib.build(fc.GROUP)
     quick = tier == "quick"
     shards = [fc.shard("r16", [16], depth=1, leaf="full")] if replay else [s for s in fc.filter_shards(tier) if not s["name"].startswith("tth")]
+    if not replay:
+        # the substring family (Cnt / Stw / Enw with shared attribute and value), depth <= 2, every entry shape
+        if quick:
+            shards = [s for s in shards if s["name"] != "q22"] + [fc.shard("sf16", [16], leaf="subfam", casecap=10)]
+        else:
+            shards += [fc.shard("sf16", [16, 17], leaf="subfam", casecap=10), fc.shard("sf4", [4, 22], leaf="subfam", casecap=10)]
     pool = ThreadPoolExecutor(max_workers=1)
     mcf = pool.submit(fc.run_mc, PID, "KFilterMC", fc.MC_TEMPLATE, shards, 4 if quick else 8,
                       600 if quick else 2400, lib.seed())
